@@ -33,8 +33,6 @@ import (
 	"pgregory.net/rapid"
 )
 
-var vfC09H = vfkit.For("C09")
-
 // vfC09Totals reads num_dns_queries and num_blocked_filtering out of a GET
 // /control/stats answer.
 func vfC09Totals(body []byte) (total, blocked uint64, err error) {
@@ -47,8 +45,17 @@ func vfC09Totals(body []byte) (total, blocked uint64, err error) {
 	return resp.Total, resp.Blocked, err
 }
 
-func TestVFC09HomeShutdown(t *testing.T) {
+func TestVFC09HomeShutdown(t *testing.T) { vfHomeShutdown(t, "C09") }
+
+// TestVFC07HomeShutdown: the same histories judged for the query log (C07,
+// operation "restart"): every query GET /control/querylog listed before the
+// clean shutdown is in the files the next start reads.
+func TestVFC07HomeShutdown(t *testing.T) { vfHomeShutdown(t, "C07") }
+
+// vfHomeShutdown runs the histories for the property prop.
+func vfHomeShutdown(t *testing.T, prop string) {
 	vfkit.Begin(t)
+	cov := vfkit.For(prop)
 	// the upstream server of the installation
 	upc, err := net.ListenPacket("udp", "127.0.0.1:0")
 	if err != nil {
@@ -160,7 +167,7 @@ func TestVFC09HomeShutdown(t *testing.T) {
 			trace = append(trace, fmt.Sprintf("POST /control/dns_config while another program takes port %d -> %d", dnsPort, rec.Code))
 			if rec.Code == http.StatusOK {
 				// the port was not taken in time: an ordinary restart
-				vfC09H.Class("home:port_not_taken_in_time")
+				cov.Class("home:port_not_taken_in_time")
 				reconf = "restart_ok"
 				if pc != nil {
 					_ = pc.Close()
@@ -172,6 +179,59 @@ func TestVFC09HomeShutdown(t *testing.T) {
 		if serverUp && k2 > 0 {
 			a2 := ask(k2)
 			trace = append(trace, fmt.Sprintf("%d more queries, %d answered", k2, a2))
+		}
+
+		if prop == "C07" {
+			rec := do(http.MethodGet, "/control/querylog?limit=500", "")
+			var listed struct {
+				Data []struct {
+					Question struct {
+						Name string `json:"name"`
+					} `json:"question"`
+				} `json:"data"`
+			}
+			if jerr := json.Unmarshal(rec.Body.Bytes(), &listed); rec.Code != http.StatusOK || jerr != nil || len(listed.Data) == 0 {
+				t.Fatalf("VERIF-INCONCLUSIVE GET /control/querylog before the shutdown: %d %v %d entries\nhistory: %v", rec.Code, jerr, len(listed.Data), trace)
+			}
+			want := map[string]int{}
+			for _, e := range listed.Data {
+				want[e.Question.Name]++
+			}
+			trace = append(trace, fmt.Sprintf("GET /control/querylog: %d entries", len(listed.Data)))
+			qlDir := globalContext.getDataDir()
+			cleanup(ctx)
+			cleaned = true
+			trace = append(trace, "clean shutdown")
+
+			got := map[string]int{}
+			stored := 0
+			for _, name := range []string{"querylog.json.1", "querylog.json"} {
+				raw, _ := os.ReadFile(filepath.Join(qlDir, name))
+				for _, line := range strings.Split(string(raw), "\n") {
+					var e struct {
+						QH string `json:"QH"`
+					}
+					if line == "" || json.Unmarshal([]byte(line), &e) != nil {
+						continue
+					}
+					got[e.QH]++
+					stored++
+				}
+			}
+			cov.Eval()
+			cov.Class("home:shutdown_after:" + reconf)
+			cov.Nontrivial(fmt.Sprintf("home|%d|%s|%d", k1, reconf, k2))
+			if cov.WantSample("home_shutdown/" + reconf) {
+				cov.Sample("home_shutdown/"+reconf, map[string]any{"history": trace, "listed_before": len(listed.Data), "stored_after": stored})
+			}
+			for name, n := range want {
+				if got[name] != n {
+					t.Fatalf("before the clean shutdown GET /control/querylog listed %d entries, %d of them for %q; the files the next start reads hold %d entries, %d for that name\nhistory: %v",
+						len(listed.Data), n, name, stored, got[name], trace)
+				}
+			}
+
+			return
 		}
 
 		rec := do(http.MethodGet, "/control/stats", "")
@@ -222,11 +282,11 @@ func TestVFC09HomeShutdown(t *testing.T) {
 			t.Fatalf("VERIF-INCONCLUSIVE GET /control/stats after the restart: %v: %s", jerr, rec.Body.String())
 		}
 
-		vfC09H.Eval()
-		vfC09H.Class("home:shutdown_after:" + reconf)
-		vfC09H.Nontrivial(fmt.Sprintf("home|%d|%s|%d", k1, reconf, k2))
-		if vfC09H.WantSample("home_shutdown/" + reconf) {
-			vfC09H.Sample("home_shutdown/"+reconf, map[string]any{"history": trace, "total_before": wantTotal, "total_after_restart": gotTotal})
+		cov.Eval()
+		cov.Class("home:shutdown_after:" + reconf)
+		cov.Nontrivial(fmt.Sprintf("home|%d|%s|%d", k1, reconf, k2))
+		if cov.WantSample("home_shutdown/" + reconf) {
+			cov.Sample("home_shutdown/"+reconf, map[string]any{"history": trace, "total_before": wantTotal, "total_after_restart": gotTotal})
 		}
 		if gotTotal != wantTotal || gotBlocked != wantBlocked {
 			t.Fatalf("before the clean shutdown GET /control/stats reported %d queries (%d blocked); the database the next start reads holds %d (%d blocked)\nhistory: %v",
